@@ -13,7 +13,10 @@
         answer: records of `mpoRecord (ptOfJoint …)` " # " records of `jointRecord` " # " records of
         `mpoRecord` of the n-step process tensor with its last bond closed (`foldLastT`)
    commute L D1 D1' D2 D2' | T1 | T2
-        the hypothesis of `order_indep_of_commute` for one step, exactly: "true" / "false" -/
+        the hypothesis of `order_indep_of_commute` for one step, exactly: "true" / "false"
+   hist cls kind | s k id | g k | …
+        `objTrace` with the regenerated memoisation wiring of cls ∈ {simple, file}, kind ∈ {mpo, cap}:
+        which stored version each call answers with ("-": None) -/
 import OQuPyVerif.Model.ProtoQI
 import OQuPyVerif.Model.MultiEnv
 open OQuPyVerif OQuPyVerif.Proto OQuPyVerif.PathSum OQuPyVerif.PT OQuPyVerif.MultiEnv Finset
@@ -215,6 +218,25 @@ def runCommute (ws : List String) : Option String := do
         = ∑ m ∈ range L, T2 b2 b2' i m * T1 b1 b1' m o)
   pure (toString ok)
 
+/-- hist cls kind | s k id | g k | …   (stored values are abstract version numbers, the getter's
+    computation is the identity on them): answers of the calls, "-" for None -/
+def runHist (ws : List String) : Option String := do
+  let secs := sections ws
+  let hd ← secs[0]?
+  let cls ← hd[0]?
+  let kind ← hd[1]?
+  let cw : CacheWiring ←
+    if cls == "simple" && kind == "mpo" then some simpleMpoCache
+    else if cls == "simple" && kind == "cap" then some simpleCapCache
+    else if cls == "file" && kind == "mpo" then some fileMpoCache
+    else if cls == "file" && kind == "cap" then some fileCapCache else none
+  let ops ← (secs.drop 1).mapM (fun s => match s with
+    | ["s", k, v] => do pure (PtOp.set (← k.toNat?) (← v.toNat?))
+    | ["g", k] => do pure (PtOp.get (← k.toNat?))
+    | _ => none)
+  let tr := objTrace cw (fun v : Nat => v) PtObj.empty ops
+  pure (" ".intercalate (tr.map (fun a => match a with | none => "-" | some v => toString v)))
+
 def step (line : String) : String :=
   match words line with
   | "multi" :: rest => (runMulti rest).getD "bad-op"
@@ -222,6 +244,7 @@ def step (line : String) : String :=
   | "caps" :: rest => (runCaps rest).getD "bad-op"
   | "joint" :: rest => (runJoint rest).getD "bad-op"
   | "commute" :: rest => (runCommute rest).getD "bad-op"
+  | "hist" :: rest => (runHist rest).getD "bad-op"
   | _ => "bad-op"
 
 def main : IO Unit := mainLoop step
